@@ -7,17 +7,17 @@ MINE = {"result-class", "model:bind", "model:obj", "store-state:tmp-residue", "s
         "bookkeeping-not-exact", "referenced-object-removed", "returned-value", "store-state:delete-marker-residue"}
 
 
-def variants(content, canon, tier):
+def variants(content, canon, tier, allpos=False):
     true = hashlib.new(canon, content).hexdigest()
     other = hashlib.new("sha3_256" if canon != "sha3_256" else "sha256", content).hexdigest()
     out = [("lower-case", true, True), ("upper-case", true.upper(), True),
            ("mixed-case", "".join(ch.upper() if i % 2 else ch for i, ch in enumerate(true)), True),
            ("digest of another algorithm", other, other.lower() == true),
            ("truncated", true[:-1], False)]
-    positions = range(len(true)) if tier == "thorough" else (0, len(true) // 2, len(true) - 1)
+    positions = range(len(true)) if allpos else (0, len(true) // 2, len(true) - 1)
     for pos in positions:
         ch = "0" if true[pos] != "0" else "1"
-        out.append(("hex digit %d changed" % pos if tier != "thorough" else "one hex digit changed",
+        out.append(("hex digit %d changed" % pos if not allpos else "one hex digit changed",
                     true[:pos] + ch + true[pos + 1:], False))
     return out
 
@@ -33,9 +33,11 @@ def menu_for(tier):
                     [spell.DATAONE.get(canon, spell.spellings(canon, "quick")[0]), canon]
                 if tier == "thorough":
                     sps = sps[:4] + [canon]
-                for sp in sorted(set(sps)):
+                for nsp, sp in enumerate(sorted(set(sps))):
                     combos = []
-                    for name, ck, okc in variants(c, canon, tier):
+                    # thorough: every hex position, for the canonical spelling on the multi-buffer content
+                    allpos = tier == "thorough" and sp == canon and k == 1
+                    for name, ck, okc in variants(c, canon, tier, allpos):
                         for sname, sz, oks in (("no size", None, True), ("true size", n, True)):
                             if sz == 0:
                                 continue
